@@ -1,4 +1,5 @@
 import FmpRpc.Proofs.TransportInv
+import FmpRpc.Proofs.TransportInvA4
 import FmpRpc.Props.C02
 /-
   C03 — the outgoing byte stream is a sequence of whole, size-limited frames.
@@ -16,7 +17,15 @@ theorem encodeFrame_whole (max : Nat) (content bs : Bytes) (hmax : max < 2147483
     content.length ≤ max ∧
     runStream (decIntBits 32) bs = ⟨.ok content.length, content⟩ ∧
     lenTooLow content.length = false ∧ lenTooHigh content.length max = false := by
-  sorry
+  unfold encodeFrameBytes at h
+  split at h
+  · simp at h
+  · rename_i hle
+    injection h with h; subst h
+    have hle' : content.length ≤ max := by omega
+    refine ⟨hle', C02.prefix_roundtrip content.length (by omega) content, ?_, ?_⟩
+    · simp [lenTooLow, Gen.pktLenLow, Cmp.eval]; intro h0; simp [h0] at hc
+    · simp [lenTooHigh, Gen.pktLenHigh, Cmp.eval]; omega
 
 /-- A message whose encoding exceeds the maximum is refused. -/
 theorem oversize_refused (max : Nat) (content : Bytes) (h : max < content.length) :
@@ -30,7 +39,8 @@ open FmpRpc.T in
 theorem writes_are_frames (s : T.St) (hr : T.Reachable s) :
     s.wlog.Nodup ∧ ∀ x ∈ s.wlog, (s.sends x).fits = true ∧
       ((s.sends x).st = .handed ∨ (s.sends x).st = .completed) := by
-  sorry
+  have hW := WInv_reach s hr
+  exact ⟨hW.nd, fun x hx => ⟨(hW.wl1 x hx).1, (hW.wl1 x hx).2.1⟩⟩
 
 open FmpRpc.T in
 /-- An oversize call is refused to its own sender only: nothing is handed to
@@ -42,7 +52,15 @@ theorem oversize_is_local (s s' : T.St) (c : Nat) (h : T.step s (.cEnc c false) 
     (∀ c', c' ≠ c → s'.callers c' = s.callers c') ∧
     (∀ x, x ≠ s.nextSend → s'.sends x = s.sends x) ∧
     (s'.sends s.nextSend).st = .completed ∧ (s'.sends s.nextSend).slot = some .toobig := by
-  sorry
+  simp only [T.step] at h
+  split at h
+  · simp only [Bool.false_eq_true, if_false] at h
+    injection h with h; subst h
+    simp
+    refine ⟨?_, ?_⟩
+    · intro c' hc'; simp [hc']
+    · intro x hx; simp [hx]
+  · simp at h
 
 open FmpRpc.T in
 /-- A sender whose context ends, or that finds the encoder closed, abandons
@@ -51,6 +69,9 @@ theorem abandon_is_whole (s : T.St) (hr : T.Reachable s) (x : Nat)
     (h : (s.sends x).st = .completed)
     (he : (s.sends x).slot = some .ctx ∨ (s.sends x).slot = some .eof ∨ (s.sends x).slot = some .toobig) :
     x ∉ s.wlog := by
-  sorry
+  have hW := WInv_reach s hr
+  intro hx
+  have := (hW.wl1 x hx).2.2
+  rcases he with he | he | he <;> simp [he] at this
 
 end FmpRpc.C03
